@@ -106,7 +106,7 @@ func runLoopRT(t *simrt.Tape, keep bool) simrt.Outcome {
 	results := -1
 	select {
 	case results = <-done:
-	case <-time.After(20 * time.Second):
+	case <-simrt.After20s():
 		fail("C04.rt-never-ends", "an attack of %d hits with waits%s has not ended after 20 s", n, desc)
 		return simrt.Outcome{V: viol, LogHash: log.Hash(), LogText: log.Text(), Stats: stats, Sig: log.Hash(), NonTriv: true}
 	}
